@@ -91,7 +91,7 @@ func (i *chunkInitCommon) unmarshal(raw []byte) error {
 	offset := initChunkMinLength
 	remaining := len(raw) - offset
 	for remaining > 0 {
-		if remaining > initOptionalVarHeaderLength {
+		if remaining >= initOptionalVarHeaderLength {
 			var pHeader paramHeader
 			if err := pHeader.unmarshal(raw[offset:]); err != nil {
 				return fmt.Errorf("%w: %v", ErrInitChunkParseParamTypeFailed, err) //nolint:errorlint
